@@ -10,7 +10,7 @@ Import ListNotations.
       (lines that lex, without a diagnostic, to an atom whose element column reads H) *)
 Theorem C15_pdb_discard_hydrogens_is_a_filter : forall fm ao loose lines s,
   (forall nl, In nl lines -> forall b, match lex_line (fst nl) (snd nl) ao loose with
-             | inl (LAtom _ b' _ _ _ _ _, _ :: _) => b' = b -> text_eqb (ab_element b) (stext "H") = false
+             | inl (LAtom _ b' _ _ _ _ _, _ :: _) => b' = b -> is_hydrogen (ab_element b) (ab_name b) = false
              | _ => True end) ->
   fold_left (step_line true fm ao loose) lines s =
   fold_left (step_line false fm ao loose) (filter (fun nl => negb (hydrogen_line ao loose nl)) lines) s.
@@ -74,10 +74,11 @@ Proof. exact pdb_only_first_model_is_a_prefix. Qed.
 
 (* only_first_model in the row loop of the mmCIF reader model: a row of another model than the one settled on stops the loop
    and leaves the structure as it is; a stopped loop ignores the rows that follow *)
-Theorem C15_cif_row_of_another_model_stops : forall dh hdr s row f element e1,
+Theorem C15_cif_row_of_another_model_stops : forall dh hdr s row f element e1 name e4,
   q_stop s = false -> q_first s = Some f -> Z.eqb f (row_model hdr row) = false ->
   column get_text' hdr row "atom_site.type_symbol" = (Some element, e1) ->
-  (dh && text_eqb element (stext "H"))%bool = false ->
+  column get_text' hdr row "atom_site.label_atom_id" = (Some name, e4) ->
+  (dh && is_hydrogen element name)%bool = false ->
   let t := atom_row dh true hdr s row in
   q_stop t = true /\ q_models t = q_models s /\ q_ids t = q_ids s /\ q_first t = q_first s.
 Proof. exact cif_row_of_another_model_stops. Qed.
